@@ -123,6 +123,11 @@ DATAPATH = ['P1a', 'P1b', 'P1c', 'P1d', 'P1e', 'P1f', 'P1g', 'P1h', 'P2a', 'P2b'
             'P4', 'P4a', 'P4e', 'P5a', 'P5b', 'P5c', 'P5d', 'P9b', 'P10a', 'P10b', 'P10f', 'P10g', 'P15', 'P15m', 'P15w', 'S1', 'W1', 'W2', 'W3', 'W5', 'W8',
             'W11', 'W13', 'O1', 'O2']
 
+# rules of the futures adapters and of parking / waking: a broken one shows up under C13, C14 or C15 (and C11 when the
+# wake-up that follows a stream removal is lost), so those checks share them
+FUTURES = ['P2d', 'P6b', 'P6c', 'P6d', 'P7c', 'P7d', 'P7e', 'P7f', 'P7g', 'P7h', 'P9d', 'P11a', 'P11b', 'P11c', 'P11d', 'P11e', 'P11f',
+           'P11g', 'P11h', 'P8']
+
 PROPS = {
     'C01': DATAPATH,
     'C02': DATAPATH,
@@ -134,11 +139,11 @@ PROPS = {
     'C08': ['P7a', 'P7b', 'P7f', 'P7h', 'P2d', 'P8', 'P6b', 'P6c', 'P6d'],
     'C09': ['P1a', 'P1b', 'P1h', 'P3f', 'P6b', 'P9b', 'P9c', 'P9f', 'P9g', 'P10a', 'P10b', 'P10e', 'P11a', 'P11b', 'P11c', 'S1', 'S3', 'W10', 'W13', 'C13map', 'P15', 'P15m', 'P15w', 'P7e', 'P7f'],
     'C10': ['P10a', 'P10b', 'P10c', 'P10d', 'P10f', 'P10g', 'P15', 'P15m', 'P15w', 'P3t', 'P5a', 'S5', 'W9'],
-    'C11': ['P9a', 'P9b', 'P9c', 'P9f', 'P10b', 'P10d', 'P10e', 'P10f', 'P10g', 'P1b'],
+    'C11': ['P9a', 'P9b', 'P9c', 'P9d', 'P9f', 'P10b', 'P10d', 'P10e', 'P10f', 'P10g', 'P1b', 'P11e', 'P11g', 'P12d'],
     'C12': DATAPATH + ['P9g', 'W6', 'W7'],
-    'C13': ['C13map', 'P2c', 'P9c', 'P9d', 'W10', 'P11a', 'P11b', 'P11e', 'P7c'],
-    'C14': ['P2d', 'P11c', 'P11d', 'P11h', 'P9d', 'P11e', 'P11g', 'P8', 'P7c', 'P7d', 'P7f', 'P7h', 'P6c', 'P6d'],
-    'C15': ['P11a', 'P11b', 'P11c', 'P11d', 'P11e', 'P11g', 'P11h', 'P2d', 'P7c', 'P7d', 'P6b', 'P6d', 'P11f', 'P7e', 'P7f', 'P7g', 'P7a', 'S3'],
+    'C13': FUTURES + ['C13map', 'P2c', 'P9c', 'W10'],
+    'C14': FUTURES,
+    'C15': FUTURES + ['P7a', 'S3'],
     'C16': ['P6a', 'W9', 'W12', 'P12a', 'P12b', 'P12c', 'P12d', 'P12e', 'P12f', 'P12g', 'P12i', 'P13d', 'P10c', 'P10d', 'P10f', 'P9e'],
     'C17': ['P6a', 'P12e', 'P12f', 'P12g', 'P12h', 'P12i', 'P13a', 'P13b', 'P13d', 'P9e', 'P10c', 'P10d'],
     'C18': ['P14', 'P14n'],
